@@ -123,6 +123,8 @@ def gen_case(rng, params, idx):
             m = dict(src, mid=i)
             if rng.random() < 0.3:
                 m["prio"] = rng.choice([0, 1, -1])
+            # the redefinition may add, change or drop a return annotation: it is the same signature all the same
+            m["ret"] = ["int", "str", None][i % 3]
         else:
             n = npos
             r = rng.random()
